@@ -18,7 +18,7 @@ CHECKS = {
         category="model_checking",
         design="DESIGN.md section 4, C15",
         technique="explicit-state model checking of the real SlidingDeque: BFS closure over abstract shapes + exhaustive depth-bounded DFS of all op sequences, VecDeque reference model",
-        text="Every operation sequence over a 14-op alphabet up to depth 7 (quick) / 8 (thorough) is executed on the real SlidingDeque (Vec, SmallVec<[u32;2]> and an instrumented Vec backing, from empty and From<container> starts, with and without debug assertions) and compared step by step with a VecDeque, both by explorers that copy the deque before every op (exactly-fitting capacity: every push meets a full container) and, to depth 5 / 6, by re-executing each history on one object (amortised capacities); in addition a breadth-first closure over the abstract state (physical length, consumed prefix) with <= 8 live elements reaches a fix-point, which by data independence covers unbounded histories within that size. The space bound (consumed prefix <= half the backing length) is observed directly through the instrumented backing.",
+        text="Every operation sequence over a 14-op alphabet up to depth 7 (quick) / 8 (thorough) is executed on the real SlidingDeque (Vec, SmallVec<[u32;2]> and an instrumented Vec backing, from empty and From<container> starts, with and without debug assertions) and compared step by step with a VecDeque, both by explorers that copy the deque before every op (exactly-fitting capacity: every push meets a full container) and, to depth 5 / 6, by re-executing each history on one object (amortised capacities); a 16-op alphabet adds clone_from into a deque with history (7 fresh items, with and without a consumed prefix in the source), and a zero-sized family runs all sequences to depth 4 / 5 on SlidingDeque<Vec<()>> of usize::MAX, usize::MAX - 1 and isize::MAX + 1 items (cursor arithmetic at the top of the usize range) against a counter model; in addition a breadth-first closure over the abstract state (physical length, consumed prefix) with <= 8 live elements reaches a fix-point, which by data independence covers unbounded histories within that size. The space bound (consumed prefix <= half the backing length) is observed directly through the instrumented backing.",
         note="Assumes the deque's control flow does not depend on element values (no Ord/Eq bound); logical lengths > 8 are not enumerated; reference model is std VecDeque.",
     ),
     "C16": dict(
@@ -26,7 +26,7 @@ CHECKS = {
         category="model_checking",
         design="DESIGN.md section 4, C16",
         technique="explicit-state model checking of the real SortedDeque: BFS closure over (physical length, consumed prefix, tombstone flags) + exhaustive depth-bounded DFS, BTreeMap reference model",
-        text="Every sequence of push / push-erased / pop_first / pop_last / clear / remove-by-rank / remove-absent up to depth 7 (quick) / 8 (thorough) is executed on the real SortedDeque for both item conventions and three backings; after every op iteration order, first/last/is_empty and find() of every key ever pushed, its absent neighbour and one key above are compared with a BTreeMap, and out-of-order pushes must panic. A closure over tombstone-flag shapes with <= 7 physical items reaches a fix-point. Six non-initial start histories (tombstones then clear, two interior tombstones, emptied by pops, ...) are each followed by all op sequences to depth 6 / 7, and all histories to depth 5 / 6 are also re-executed on one object without copies.",
+        text="Every sequence of push / push-erased / pop_first / pop_last / clear / remove-by-rank / remove-absent up to depth 7 (quick) / 8 (thorough) is executed on the real SortedDeque for both item conventions and three backings; after every op iteration order, first/last/is_empty and find() of every key ever pushed, its absent neighbour and one key above are compared with a BTreeMap, and out-of-order pushes must panic. A closure over tombstone-flag shapes with <= 7 physical items reaches a fix-point. Six non-initial start histories (tombstones then clear, two interior tombstones, emptied by pops, ...) are each followed by all op sequences to depth 6 / 7, and all histories to depth 5 / 6 are also re-executed on one object without copies; an extended alphabet performs the rejected pushes (key equal to / below the last item) on the object under test, catches the panic and carries on: the deque must be unchanged.",
         note="Item types whose Ord changes under erasure relative to other keys (DESIGN observation O3) are outside the harness; > 7 physical items not enumerated.",
     ),
 }
@@ -44,7 +44,7 @@ CHECKS["C12"] = dict(
     category="exploration",
     design="DESIGN.md section 4, C12",
     technique="bounded-exhaustive enumeration of byte buffers (word alphabet x length x trailing bytes) on the real MessageView, reference predicate in u128 arithmetic + reference layout as oracle",
-    text="Every buffer of <= 7 (quick) / 8 (thorough) little-endian words over a 13-word alphabet chosen to hit every header shape (N = 0..8, N beyond the buffer, N near 2^29 / 2^31 / 2^32, equal / decreasing / out-of-range offsets and tags, 0xFF vs 0x100) with 0-3 trailing bytes, plus one more word over an 8-word alphabet, is given to MessageView::new (borrowed and owned storage). Long headers (N = 2..40, strictly increasing tags and offsets except for exactly one descent or equality at every position) cover scans that work in blocks. Accept/reject must equal the format predicate; on accepted views len/is_empty/tags/iter/get/get_value/find/find_tag/tags_match_exactly are compared with the reference layout for indices 0..N+2 and usize::MAX, by position and content; nothing may panic.",
+    text="Every buffer of <= 7 (quick) / 8 (thorough) little-endian words over a 13-word alphabet chosen to hit every header shape (N = 0..8, N beyond the buffer, N near 2^29 / 2^31 / 2^32, equal / decreasing / out-of-range offsets and tags, 0xFF vs 0x100) with 0-3 trailing bytes, plus one more word over an 8-word alphabet, is given to MessageView::new (borrowed and owned storage). Borrowed buffers sit at every address modulo 4 (rotating through all addresses modulo 8 in the main enumeration); payloads of 2^32 - 1, 2^32 + 5 and 2^33 + 1 bytes (lazily zeroed) check the 32-bit offset arithmetic against 64-bit lengths. Long headers (N = 2..40, strictly increasing tags and offsets except for exactly one descent or equality at every position) cover scans that work in blocks. Accept/reject must equal the format predicate; on accepted views len/is_empty/tags/iter/get/get_value/find/find_tag/tags_match_exactly are compared with the reference layout for indices 0..N+2 and usize::MAX, by position and content; nothing may panic.",
     note="Values outside the word alphabet are not tried; the predicate only compares words with each other and with the buffer length, and the alphabet has representatives on both sides of each comparison.",
 )
 
@@ -61,7 +61,7 @@ CHECKS["C17"] = dict(
     category="fault_enumeration",
     design="DESIGN.md section 4, C17",
     technique="exhaustive enumeration of reader fault scripts (short reads, EINTR, EOF, hard errors) up to a length bound x counts x attempt limits x arena states x entry points on the real read_n, 15-line specification as oracle",
-    text="All reader scripts over {deliver all, deliver 1, deliver 2, Interrupted, EOF, Other error, WouldBlock error} up to length 6 (quick) / 7 (thorough), then EOF forever, x count in {0,1,2,3,5} (and, for counts beyond one 64008-byte HCOBS chunk, {64008, 64009, 64010, 70000, 128016, 128017} x scripts over {all, 40000, 64008, 1, Interrupted, EOF, errors} up to length 3 / 4) x max_attempts in {1,2,3,5,MAX} x five arena states (no cache, fresh chunk, remaining == count, count-1, 0) are run through ByteArena::read_n, Encoder/Decoder::read_n, encode_read and decode_read. Number and sizes of reader calls, returned bytes or error kind, hand-back of the unread tail, liveness of the returned slice, absence of leaks and the codec output after finish are judged against the statement on the trace that actually happened: at most max_attempts calls, each asking for at least 1 and at most the bytes still missing, no call after end of file / a non-interrupt error / the count was reached, no stop before one of those or the attempt budget, result = bytes delivered or the last error.",
+    text="All reader scripts over {deliver all, deliver 1, deliver 2, Interrupted, EOF, Other error, WouldBlock error, UnexpectedEof error} up to length 6 (quick) / 7 (thorough), then EOF forever, x count in {0,1,2,3,5} (and, for counts beyond one 64008-byte HCOBS chunk, {64008, 64009, 64010, 70000, 128016, 128017} x scripts over {all, 40000, 64008, 1, Interrupted, EOF, errors} up to length 3 / 4) x max_attempts in {1,2,3,5,MAX} x five arena states (no cache, fresh chunk, remaining == count, count-1, 0) are run through ByteArena::read_n, Encoder/Decoder::read_n, encode_read and decode_read. Number and sizes of reader calls, returned bytes or error kind, hand-back of the unread tail, liveness of the returned slice, absence of leaks and the codec output after finish are judged against the statement on the trace that actually happened: at most max_attempts calls, each asking for at least 1 and at most the bytes still missing, no call after end of file / a non-interrupt error / the count was reached, no stop before one of those or the attempt budget, result = bytes delivered or the last error.",
     note="Readers that violate Read's contract are out of scope; codec output is compared with the reference encoder in mc_core::refcodec.",
 )
 
@@ -78,8 +78,8 @@ CHECKS["C04"] = dict(
     engine="iovec_mc",
     category="model_checking",
     design="DESIGN.md section 4, C04",
-    technique="stateless model checking: exhaustive DFS over all register/backfill/push/consume histories (16-op alphabet, depth 7-8) of the real OwningIovec against a reference model with marked holes",
-    text="All histories over a 16-op backpatch alphabet (copies sized to leave exactly 4 bytes in the current arena chunk so that placeholders straddle a chunk end, placeholders of size 0/1/2 with up to 5 in flight, backfill of the 1st/2nd/3rd/last pending in any order, merging and non-merging pushes, cache flush, slice and byte consumption) to depth 7 (quick) / 8 (thorough), plus seeds. The visible length may never reach the earliest hole, iovs/flatten/stable_consumer succeed exactly when no hole is pending, and after all backfills everything is consumable with the backfilled values. " + IOVEC_COMMON,
+    technique="stateless model checking: exhaustive DFS over all register/backfill/push/consume histories (17-op alphabet, depth 7-8) of the real OwningIovec against a reference model with marked holes",
+    text="All histories over a 17-op backpatch alphabet (a clone taken while placeholders are pending, whose views must hide them too; non-initial states with 5-7 placeholders in flight; copies sized to leave exactly 4 bytes in the current arena chunk so that placeholders straddle a chunk end, placeholders of size 0/1/2 with up to 5 in flight, backfill of the 1st/2nd/3rd/last pending in any order, merging and non-merging pushes, cache flush, slice and byte consumption) to depth 7 (quick) / 8 (thorough), plus seeds. The visible length may never reach the earliest hole, iovs/flatten/stable_consumer succeed exactly when no hole is pending, and after all backfills everything is consumable with the backfilled values. " + IOVEC_COMMON,
     note="More than 5 placeholders in flight and placeholder sizes above 2 are not enumerated.",
 )
 CHECKS["C05"] = dict(
@@ -95,7 +95,7 @@ CHECKS["C20"] = dict(
     category="model_checking",
     design="DESIGN.md section 4, C20",
     technique="stateless model checking: all prefixes x {clone, take} x all two-sided suffixes on the real OwningIovec, one reference model per side",
-    text="Every prefix over a 9-op alphabet to depth 3, then clone (when no placeholder is pending) or take, then every suffix over 18 ops addressed to either side (pushes that merge, register/backfill, consume, clear, drop, flush) to depth 3 (quick) / 5 (thorough). Each side has its own reference model, so any operation on one side that changes the other is a mismatch; after take the source must be empty and usable and the taken value must complete all outstanding backfills. " + IOVEC_COMMON,
+    text="Every prefix over a 9-op alphabet to depth 3, then clone (when no placeholder is pending) or take, then every suffix over 19 ops addressed to either side (pushes that merge, register/backfill, consume, clear, drop, flush, and `B.clone_from(&A)` overwriting a copy that may have placeholders of its own pending) to depth 3 (quick) / 5 (thorough). Each side has its own reference model, so any operation on one side that changes the other is a mismatch; after take the source must be empty and usable and the taken value must complete all outstanding backfills. " + IOVEC_COMMON,
     note="More than two live copies and clones taken while placeholders are pending (excluded by the statement) are not explored.",
 )
 
@@ -105,7 +105,7 @@ CHECKS["C01"] = dict(
     category="model_checking",
     design="DESIGN.md section 4, C01",
     technique="bounded-exhaustive enumeration of inputs x segmentations x input-method masks on the real Encoder and Decoder (tiny limits via hook H2, production limits via the public API), reference codec as oracle",
-    text="Tiny limits (1,1), (2,3), (3,5): every input over {FE, FD, 00, FF, FC} up to length 5 (quick) / 6 (thorough) and over 4 letters up to 6 / 8, every segmentation into <= 3 pieces with all 27 borrow/copy/anchored masks plus read, and the canonical stream fed to the decoder under every 3-way segmentation x 4 methods. Production limits: pre . x^k . h . p . x^t with k at every distance within 3 / 8 of 0, 64, 256, 4096 and the chunk limit (252 after nothing, 64008 after a full first chunk or a stuff sequence), every subset of cuts at part boundaries and inside p, 8 method masks (three of them with a rotating schedule over all 10 drain operations, since the statement covers incrementally drained output), decoded back under cuts around every header; alignment family x^a . q . x^b for all q over {FE, FD, FF, 00} up to length 4. State-space closure at the tiny limits: a BFS over the encoder's (chunk limit, bytes in chunk, held-back flag) and the decoder's state reaches a fix-point, and from every reachable state every next piece of length 1..3 and follow-up are fed as separate calls by every method and compared in full, so every reachable (state, next piece) transition at these limits is exercised. " + HCOBS_COMMON,
+    text="Tiny limits (1,1), (2,3), (3,5): every input over {FE, FD, 00, FF, FC} up to length 5 (quick) / 6 (thorough) and over 4 letters up to 6 / 8, every segmentation into <= 3 pieces with all 27 borrow/copy/anchored masks plus read, and the canonical stream fed to the decoder under every 3-way segmentation x 4 methods. Production limits: pre . x^k . h . p . x^t with k at every distance within 3 / 8 of 0, 64, 256, 4096 and the chunk limit (252 after nothing, 64008 after a full first chunk or a stuff sequence), every subset of cuts at part boundaries and inside p, 8 method masks (three of them with a rotating schedule over all 10 drain operations, since the statement covers incrementally drained output), decoded back under cuts around every header; alignment family x^a . q . x^b for all q over {FE, FD, FF, 00} up to length 4; a 3.3 MiB input through encode_read / encode_copy / encode and its canonical stream through decode_read / decode_copy in calls of 64 KiB, 700 000, 1 MiB - 1, 1 MiB, 1 MiB + 1 and 2 MiB bytes; 4 MiB (quick) / 32 MiB (thorough) encoder -> decoder streams for every single call size x method x payload shape, drained after every call. State-space closure at the tiny limits: a BFS over the encoder's (chunk limit, bytes in chunk, held-back flag) and the decoder's state reaches a fix-point, and from every reachable state every next piece of length 1..3 and follow-up are fed as separate calls by every method and compared in full, so every reachable (state, next piece) transition at these limits is exercised. " + HCOBS_COMMON,
     note="Strings longer than the bounds with several interacting boundaries at production limits are covered only through the scaled-down limits; bytes outside the alphabets matter only through comparison with FE / FD.",
 )
 CHECKS["C02"] = dict(
@@ -121,7 +121,7 @@ CHECKS["C07"] = dict(
     category="model_checking",
     design="DESIGN.md section 4, C07",
     technique="bounded-exhaustive enumeration: encoder outputs vs an independent canonical encoder; decoder accept set on ALL byte strings over a 10-letter alphabet (tiny limits) and on the whole 1-byte / 2-byte header space (production limits) vs a reference decoder",
-    text="Encoder: every output of the C01 families is compared byte-for-byte with a reference encoder that hard-codes 252 / 64008 / 253. Decoder, tiny limits: ALL byte strings over {0,1,2,3,5,6,FC,FD,FE,FF} up to length 6 (quick) / 7 (thorough), whole, under every 2-way split x {borrow, copy}, every 3-way split and with zero-length calls between and after the pieces: accept/reject and output must equal the reference decoder and must not depend on the segmentation. Decoder, production limits: all 256 first-header bytes and, after an empty first chunk, all 65 536 second-header byte pairs, each with the body a lenient reading would expect (short by one, exact, exact + terminators), whole and split inside / after the header; truncations of a 3-chunk message around every header; out-of-radix header bytes after long borrowed chunks. " + HCOBS_COMMON,
+    text="Encoder: every output of the C01 families is compared byte-for-byte with a reference encoder that hard-codes 252 / 64008 / 253. Decoder, tiny limits: ALL byte strings over {0,1,2,3,5,6,FC,FD,FE,FF} up to length 6 (quick) / 7 (thorough), whole, under every 2-way split x {borrow, copy}, every 3-way split and with zero-length calls between and after the pieces: accept/reject and output must equal the reference decoder and must not depend on the segmentation. Decoder, production limits: all 256 first-header bytes and, after an empty first chunk, all 65 536 second-header byte pairs, each with the body a lenient reading would expect (short by one, exact, exact + terminators), whole and split inside / after the header; truncations of a 3-chunk message around every header; out-of-radix header bytes after long borrowed chunks. Big blocks: a 3.3 MiB input and its canonical stream in calls of 64 KiB, 700 000, 1 MiB - 1, 1 MiB, 1 MiB + 1, 2 MiB through every input method (the arena's largest chunk size class is 1 MiB). " + HCOBS_COMMON,
     note="Interoperability is judged against the reference codec written here from the format description.",
 )
 CHECKS["C09"] = dict(
@@ -137,13 +137,13 @@ CHECKS["C10"] = dict(
     category="model_checking",
     design="DESIGN.md section 4, C10",
     technique="exhaustive enumeration of operation histories ending in every drop order (leak clause) and of streaming schedules with per-call footprint bounds and a chunk-count plateau test (bounded-footprint clause)",
-    text="Leak clause: every history of the C05 alphabet (clones, takes, arena swaps, held AnchoredSlices, explicit drops of either side) to depth 5 / 6, and every run of the HCOBS families, ends by dropping everything (two drop orders) and the process-wide live chunk / byte counters must return to their initial values. Streaming clause: every schedule of the C09 streaming grid, including the read-fault schedules (a failed read must give its arena allocation back); after every call live arena bytes <= 6 (chained 8) x max(1 MiB, largest call), peak live chunk count in the last third of the stream <= first third + 2 and never above 16, no leak after drop.",
+    text="Leak clause: every history of the C05 alphabet (clones, takes, arena swaps, held AnchoredSlices, explicit drops of either side) to depth 5 / 6, and every run of the HCOBS families, ends by dropping everything (two drop orders) and the process-wide live chunk / byte counters must return to their initial values. Drop points: every sequence of copied calls over {5000, 600 000, 1 MiB + 1} bytes up to length 5 / 7 with a full drain after each, then everything dropped, each history in a fresh process (a leak may hide in process-global state). Streaming clause: every schedule of the C09 streaming grid, including the read-fault schedules (a failed read must give its arena allocation back); after every call live arena bytes <= 6 (chained 8) x max(1 MiB, largest call), peak live chunk count in the last third of the stream <= first third + 2 and never above 16, no leak after drop.",
     note="Workers are single-threaded processes so the global counters are exact. 'Unbounded' is periodic unrolling to 16-256 MiB. Live bytes are bounded absolutely; growth is judged on the chunk count because the arena's own chunk size legitimately ramps from 4 KiB to 1 MiB.",
 )
 CHECKS["C05"]["engine"] = "iovec_mc+hcobs_mc"
 CHECKS["C05"]["text"] += " The same liveness check runs on every slice exposed by Encoder / Decoder consumers over the HCOBS input families (anchored input included), and after decode errors followed by an arena flush."
 
-STREAM_FAMILIES = "Streams: (i) ALL byte streams over {FE, FD, 00, 01, 61, FF} up to length 6 (quick) / 8 (thorough); (ii) crash histories: every log of <= 2 (quick) / 3 (thorough) records from 7 payloads (empty, 'a', FE FD, 251 / 252 / 253 bytes, FE FE FE), intact, truncated at every byte with and without a restarted writer, and with single bytes replaced by FE / FD / FF / 00; alignment streams x^a . q . x^b; (iv) block and buffer edges: block sizes 4090..4098 x first records whose encoding is B-5..B+2 bytes (valid and torn) followed by a delimiter and a second record, so the delimiter's FE meets every position around the end of a read and of the reader's first arena chunk; FE FD within 3 bytes of 4096 / 8192 / 16384 / 32768 / 65536 / 131072 and at 64004..64016 of a stuff-free filler (alone and after a short first chunk) under block sizes 65536, 70000 and the 512 KiB default. Block sizes 0, 1, 2, 3, 4, 5, 8, 64 (+ 255, 256 and the 512 KiB default on logs). Reader schedules: full reads, always-1, always-2, alternate 1/3, and every single deviation (a 1-byte read, or a burst of 1 / 3 / 40 Interrupted results) at every reader call (every pair for length <= 4 in the thorough tier)."
+STREAM_FAMILIES = "Streams: (i) ALL byte streams over {FE, FD, 00, 01, 61, FF} up to length 6 (quick) / 8 (thorough); (ii) crash histories: every log of <= 2 (quick) / 3 (thorough) records from 7 payloads (empty, 'a', FE FD, 251 / 252 / 253 bytes, FE FE FE), intact, truncated at every byte with and without a restarted writer, and with single bytes replaced by FE / FD / FF / 00; alignment streams x^a . q . x^b; (iv) block and buffer edges: block sizes 4090..4098 x first records whose encoding is B-5..B+2 bytes (valid and torn) followed by a delimiter and a second record, so the delimiter's FE meets every position around the end of a read and of the reader's first arena chunk; FE FD within 3 bytes of 4096 / 8192 / 16384 / 32768 / 65536 / 131072 and at 64004..64016 of a stuff-free filler (alone and after a short first chunk) under block sizes 65536, 70000 and the 512 KiB default; ~2.2 MiB streams with FE FD around 1 MiB and 2 MiB under block sizes 1 MiB - 1, 1 MiB, 1 MiB + 1 (the arena's largest chunk size class). Block sizes 0, 1, 2, 3, 4, 5, 8, 64 (+ 255, 256 and the 512 KiB default on logs). Reader schedules: full reads, always-1, always-2, alternate 1/3, and every single deviation (a 1-byte read, or a burst of 1 / 3 / 40 Interrupted results) at every reader call (every pair for length <= 4 in the thorough tier)."
 CHECKS["C06"] = dict(
     engine="stream_mc",
     category="fault_enumeration",
@@ -157,7 +157,7 @@ CHECKS["C08"] = dict(
     category="fault_enumeration",
     design="DESIGN.md section 4, C08",
     technique="exhaustive enumeration of byte streams x block sizes x reader deviation schedules x arena states on the real StreamChunker::pump, tiling oracle",
-    text=STREAM_FAMILIES + " Arena states: fresh, 1..9 bytes remaining in the current chunk (so the carried-over byte of a held-back FE meets every small remainder), shared with a live iovec. Up to Eof the Data slices and sentinels must concatenate to the stream, each reported offset must be the absolute end of its chunk, no Data chunk may be empty or contain FE FD, FE|FD may not straddle two consecutive Data chunks, Eof only at the real end and sticky, every Data slice must stay alive and intact while held (also after the arena flushes its cache), no leak.",
+    text=STREAM_FAMILIES + " Arena states: fresh (client holding every Data chunk, and client dropping each chunk before the next pump), 1..9 bytes remaining in the current chunk (so the carried-over byte of a held-back FE meets every small remainder), shared with a live iovec. Up to Eof the Data slices and sentinels must concatenate to the stream, each reported offset must be the absolute end of its chunk, no Data chunk may be empty or contain FE FD, FE|FD may not straddle two consecutive Data chunks, Eof only at the real end and sticky, every Data slice must stay alive and intact while held (also after the arena flushes its cache), no leak.",
     note="Hard I/O errors are outside the enumerated schedules.",
 )
 CHECKS["C05"]["engine"] = "iovec_mc+hcobs_mc+stream_mc"
@@ -188,7 +188,7 @@ CHECKS["C19"] = dict(
     category="model_checking",
     design="DESIGN.md section 4, C19",
     technique="exhaustive enumeration of call histories (16-op alphabet, depth 3-4) of the real nfs_voucher module, each history in a fresh child process against real files on two real devices, invariant checked after every call",
-    text="All sequences to depth 3 (quick) / 4 (thorough) over {add_trusted_path, observe a stale / a newer trusted file / an untrusted file, maybe_observe (trusted / untrusted), scan_base_time, get_base_time with now = real now / base+100 ms / base+10 s, get_base_time_unlocked, sleep 120 ms (lets the 100 ms throttle expire), touch the stale file, replace the trusted path by a symlink onto the other device, register the other device too, a registration on the other device that is refused at its validating touch (a world-writable file the caller does not own, called with nobody's effective uid) and must leave nothing behind}; the trusted role alternates between tmpfs (/dev/shm) and the root file system. After every call the child reads the base time and stats its files: the base never decreases, changes only to the change-time of a file on a trusted device (or of the path being registered by that very call), untrusted observations report nothing, every pair returned passes VouchedTime::check.",
+    text="All sequences to depth 3 (quick) / 4 (thorough) over {add_trusted_path, observe a stale / a newer trusted file / an untrusted file, maybe_observe (trusted / untrusted), scan_base_time, get_base_time with now = real now / base+100 ms / base+10 s, get_base_time_unlocked, sleep 120 ms (lets the 100 ms throttle expire), touch the stale file, replace the trusted path by a symlink onto the other device, register the other device too, a registration on the other device that is refused at its validating touch (a world-writable file the caller does not own, called with nobody's effective uid) and must leave nothing behind; a registration through the retargeted symlink trusts the device of the file that is opened, not the link's}; the trusted role alternates between tmpfs (/dev/shm) and the root file system. After every call the child reads the base time and stats its files: the base never decreases, changes only to the change-time of a file on a trusted device (or of the path being registered by that very call), untrusted observations report nothing, every pair returned passes VouchedTime::check.",
     note="Needs two writable devices (exits 2, no verdict, otherwise). Change-times come from the kernel's coarse clock; the harness waits 12 ms after each call so later touches are strictly later. The oracle does not depend on which throttle branch was taken. Concurrency inside nfs_voucher is out of scope.",
 )
 
